@@ -71,6 +71,12 @@ def case_strategy(draw):
         if v["via"] == "override":
             v["mapped"] = draw(st.sampled_from("BH"))
         terms[to]["out"].append(v)
+    if draw(st.integers(0, 5)) == 0:
+        # a frame beyond 1 kB: the first terminal has a large process image
+        if not terms[0]["in"]:
+            terms[0]["in"].append({"name": "i8", "size": "H",
+                                   "via": "packet"})
+        terms[0]["in_pad"] = draw(st.sampled_from([1000, 1024, 1100]))
     ncyc = draw(st.integers(4, 8))
     cycles = []
     for _ in range(ncyc + 1):
